@@ -341,15 +341,16 @@ class CallMixin:
         if old.concrete is not None:
             new = SList.of(old.concrete + [x])
         else:
-            if not isinstance(x, SNode):
+            if not isinstance(x, (SNode, SStr)):
                 raise ToolLimit('append of %r to a symbolic list' % (x,))
             n = old.length
-            g = self.W.fresh_fun('lst', L.I, Node)
+            isn = isinstance(x, SNode)
+            g = self.W.fresh_fun('lst', L.I, Node if isn else Str)
             i = z3.Int('i!ap%d' % self.W.counter)
             st.assume(z3.ForAll([i], g(i) == z3.If(i == n, x.t, old.elem(i).t), patterns=[g(i)]))
-            new = SList(n + 1, lambda k, g=g: SNode(g(k)), desc=old.desc + '+1')
+            new = SList(n + 1, (lambda k, g=g: SNode(g(k))) if isn else (lambda k, g=g: SStr(g(k))), desc=old.desc + '+1')
             new.fun = g
-            new.elemkind = 'node'
+            new.elemkind = 'node' if isn else 'str'
         tgt = getattr(f, 'target_name', None)
         if tgt is None:
             raise ToolLimit('append on a list that is not a local variable')
@@ -627,6 +628,78 @@ class CallMixin:
             raise ToolLimit('library call needs the assumed contract %s' % name)
         self.used_contracts.add(name)
         return c.apply(self, st, bound)
+
+    # --- command line plumbing (A-IO, A-ARGPARSE)
+    def bi_stderr_write(self, f, pos, kws, st, ln):
+        self.assumed_used.add('A-IO')
+        st.err.append(('write', pos, ln))
+        return [(st, NONE)]
+
+    def bi_parser_print_help(self, f, pos, kws, st, ln):
+        self.assumed_used.add('A-ARGPARSE')
+        st.out.append(('help', [], ln))
+        return [(st, NONE)]
+
+    def bi_parser_parse_args(self, f, pos, kws, st, ln):
+        return self.c_apply('lib.argparse.parse_args', st, {'args': pos[0] if pos else NONE})
+
+    def bi_cli_command(self, f, pos, kws, st, ln):
+        return self.c_apply('lib.cli.command', st, {})
+
+    def bi_open(self, f, pos, kws, st, ln):
+        self.assumed_used.add('A-IO')
+        o = SOpaque(None, 'file')
+        o.path, o.mode = pos[0], pos[1] if len(pos) > 1 else None
+        return [(st, o)]
+
+    def bi_file_write(self, f, pos, kws, st, ln):
+        st.files.append(('write', f.self_val.path, pos[0], ln))
+        return [(st, NONE)]
+
+    # --- boto3 (A-S3): lazy handles, paginated listing, object download
+    def bi_s3resource_Object(self, f, pos, kws, st, ln):
+        self.assumed_used.add('A-S3')
+        o = SOpaque(None, 's3object')
+        o.bucket, o.key = pos[0], pos[1]
+        return [(st, o)]
+
+    def bi_s3object_get(self, f, pos, kws, st, ln):
+        o = SOpaque(None, 's3obj')
+        o.src = f.self_val
+        return [(st, o)]
+
+    def s3_getitem(self, st, o, key, e):
+        if o.kind == 's3obj' and key.py == 'Body':
+            b = SOpaque(None, 's3body')
+            b.src = o.src
+            return [(st, b)]
+        if o.kind == 's3page' and key.py == 'Contents':
+            out = []
+            for s2, has in self.branch(st, o.has_contents, 'contents'):
+                if has:
+                    out.append((s2, o.contents))
+                else:
+                    out.append(self.raise_(s2, 'KeyError', origin="page['Contents']"))
+            return out
+        if o.kind == 's3file' and key.py == 'Key':
+            return [(st, SStr(o.t))]
+        raise ToolLimit('subscript %r of %s' % (key, o.kind))
+
+    def bi_s3body_read(self, f, pos, kws, st, ln):
+        src = f.self_val.src
+        r = SStr(L.mkfun('s3_content', Str, Str, Str)(src.bucket.t, src.key.t))
+        st.assume(r.t != none_s)
+        return [(st, r)]
+
+    def bi_s3client_get_paginator(self, f, pos, kws, st, ln):
+        self.assumed_used.add('A-S3')
+        return [(st, SOpaque(None, 'paginator'))]
+
+    def bi_paginator_paginate(self, f, pos, kws, st, ln):
+        c = self.contracts.get('lib.s3.paginate')
+        if c is None:
+            raise ToolLimit('paginate needs the assumed contract lib.s3.paginate')
+        return c.apply(self, st, {'Bucket': kws.get('Bucket'), 'Prefix': kws.get('Prefix')})
 
     # --- str methods (A-STR: uninterpreted but functional)
     def bi_str_strip(self, f, pos, kws, st, ln):
